@@ -101,7 +101,7 @@ func (s *scan) gunzip(b []byte) ([]byte, bool) {
 }
 
 func (s *scan) walk(b []byte) {
-	if len(b) < 4 || s.depth > 200 {
+	if len(b) < 4 || s.depth > 1<<20 {
 		return
 	}
 	s.depth++
